@@ -60,6 +60,10 @@ func H_C19_escapeText_bytes() {
 	for i := 0; i < len(s); i++ {
 		// characters XML cannot carry at all (most C0 controls) are replaced by U+FFFD by design
 		vpAssume(s[i] >= 0x20 || s[i] == '\t' || s[i] == '\n' || s[i] == '\r')
+		// U+FFFE and U+FFFF (EF BF BE / EF BF BF) are valid UTF-8 but not XML 1.0 characters either
+		if i+2 < len(s) {
+			vpAssume(!(s[i] == 0xEF && s[i+1] == 0xBF && (s[i+2] == 0xBE || s[i+2] == 0xBF)))
+		}
 	}
 	var b bytes.Buffer
 	err := EscapeText(&b, []byte(s))
